@@ -1,5 +1,6 @@
 """C02 -- the filter posterior equals the exact Gaussian posterior of the linearised model (back end P)."""
 import numpy as np
+from fractions import Fraction
 
 from jxs.harness import PCase, sym_array, Orc, scalar
 from jxs.poly import Poly
@@ -20,7 +21,9 @@ META = {
     "bounds": {"quick": "one step from an ARBITRARY state (symbolic mean, lower-triangular Cholesky factor, prior "
                         "noise factor, base scale, time, step h>0, damping, polynomial vector field of degree 2 with "
                         "symbolic coefficients incl. explicit time): q=1, d=1 all 3 ssm x 3 calibrations x TS0/TS1, "
-                        "first and second order ODEs; d=2 for TS0; 2-step solve_fixed_grid end to end",
+                        "first and second order ODEs; d=2 for TS0; 2-step solve_fixed_grid end to end; solver.init with an "
+                        "initial-constraint update from an arbitrary initial distribution (posterior, solution_full, MLE "
+                        "bookkeeping), all 3 ssm x MLE/dynamic/uncalibrated",
                "thorough": "additionally q=2, d=2 for TS1, more calibration/damping combinations"},
     "assumptions": ["A1 reals", "A2 QR contract", "A3 pivots non-zero (innovation covariance nonsingular)",
                     "A5 one step from an arbitrary state + init => all grids by induction (stated, not machine-checked)",
@@ -49,6 +52,11 @@ def cases(tier):
         out.append(f"grid2/{ssm}/filter/none/ts0/o1q1d1/damp_zero")
         out.append(f"grid2/{ssm}/filter/mle/ts1/o1q1d1/damp_zero")
         out.append(f"grid2/{ssm}/filter/dynamic/ts0/o1q1d{1 if ssm == 'dense' else 2}/damp_sym")
+    # initialisation with an initial-constraint update (the update must reach state.u and the MLE bookkeeping)
+    for ssm in cm.SSMS:
+        out.append(f"init/{ssm}/filter/mle/ts0/o1q1d1/damp_sym")
+        out.append(f"init/{ssm}/filter/dynamic/ts1/o1q1d1/damp_sym")
+    out.append("init/dense/filter/none/ts0/o2q2d1/damp_sym")
     if tier == "thorough":
         for ssm in cm.SSMS:
             out.append(f"step/{ssm}/filter/none/ts1/o1q1d2/damp_zero")
@@ -119,6 +127,57 @@ def build_step(key, num_data=1):
             res["dynamic_scale^2"] = (s * s, s2 if isinstance(s2, np.ndarray) else (scalar(s2) if orc.sym else np.asarray(s2)))
         else:
             res["output_scale"] = (orc.arr(out.output_scale), orc.arr(np.ones(np.shape(out.output_scale))))
+        return res
+    return make, goals
+
+
+def build_init(key):
+    """solver.init with an initial-constraint update: the returned state is the exact conditioning of the initial
+    distribution on the linearised constraint; MLE bookkeeping counts the update as one datum"""
+    cfg = sc.parse_key(key)
+    d, n = cfg.d, cfg.n
+
+    def make(dom):
+        co = sc.field_coeffs(dom, d, cfg.order, degree=2)
+        prior_c = sc.concrete_prior(cfg)
+        prior_s, pinfo = sc.sym_prior(dom, cfg, prior_c)
+        _, Normal = cm.impl(cfg.ssm)
+        m0, L0 = cm.sym_rv(dom, cfg.ssm, n, d, "i")
+        prior_s.init = Normal(m0, L0, prior_c.init.tree_flatten)
+        t0 = sym_array(dom, "t0", ())
+        damp = sym_array(dom, "damp", ()) if cfg.damp == "sym" else np.zeros(())
+
+        def fn(prior, t0, damp, co, extras):
+            solver, _, _ = sc.make_solver(cfg, co, constraint_init=True)
+            s = solver.init(t=t0, u=prior, damp=damp)
+            return s.u, s.solution_full, s.auxiliary, s.output_scale, s.t, s.num_steps
+        return fn, (prior_s, t0, damp, co, {"m0": m0, "L0": L0})
+
+    def goals(args, out, orc):
+        prior, t0, damp, co, ex = args
+        u, full, aux, oscale, t, nst = out
+        m, P = cm.dense_rv_raw(orc, cfg.ssm, ex["m0"], ex["L0"], d)
+        tt = sc.sc(orc.arr(t0)); dd = sc.sc(orc.arr(damp))
+        H, z = sc.linearise_oracle(orc, cfg, co, m, tt)
+        S = orc.name(H.dot(P).dot(H.T) + orc.eye(d) * (dd * dd), "Si")
+        W = orc.inv(S, "Siinv")
+        K = P.dot(H.T).dot(W)
+        mo, Po = cm.dense_rv(orc, cfg.ssm, u, d)
+        mf, Pf = cm.dense_rv(orc, cfg.ssm, full, d)
+        res = {"init: mean = initial mean conditioned on the linearised constraint": (mo, m - K.dot(z)),
+               "init: cov = conditioned covariance": (Po, P - K.dot(H).dot(P)),
+               "init: solution_full carries the same marginal (mean)": (mf, mo),
+               "init: solution_full carries the same marginal (cov)": (Pf, Po),
+               "init: time": (orc.arr(t), orc.arr(t0)), "init: num_steps = 0": (orc.arr(np.asarray(nst, dtype=float)), orc.zeros(())),
+               "init: output scale one": (orc.arr(oscale), orc.arr(np.ones(np.shape(oscale))))}
+        if cfg.calib == "mle":
+            run = orc.arr(aux[1])
+            dfrac = Poly.const(Fraction(1, d)) if orc.sym else 1.0 / d
+            want = z.dot(W).dot(z) * dfrac
+            r2 = np.asarray(run * run, dtype=object if orc.sym else float).reshape(-1)
+            res["init: running MLE scale^2 = whitened residual of the initial update"] = (
+                r2, np.array([want] * int(r2.size), dtype=object if orc.sym else float))
+            res["init: the initial update counts as one datum"] = (orc.arr(np.asarray(aux[2], dtype=float)), orc.arr(np.ones(())))
         return res
     return make, goals
 
@@ -209,6 +268,8 @@ def _case(case_id, tier):
         make, goals = build_step(key)
     elif kind == "grid2":
         make, goals = build_grid(key, nsteps=2)
+    elif kind == "init":
+        make, goals = build_init(key)
     else:
         raise KeyError(kind)
     return PCase("C02/" + case_id, make, goals, budget_s=300 if tier == "quick" else 1200)
